@@ -146,7 +146,7 @@ PROPS['C18'] = {
     'explanation': 'contracts/api.ctr: model_check_formula_unsafe_ex; lemma_loop_insensitive (spec/sem_laws.rs); parametric contract of eval_node; eval_ex / eval_ax / eval_eg / eval_au specifications carry the self-loop set explicitly.',
     'trusted': _EVAL_TRUSTED, 'assumptions': _EVAL_ASSUME,
 }
-UNIT_TIMEOUT['eval'] = 600   # the unchanged tree needs about 60 s; a changed eval_node that is not decided within 10 min is re-run alone (below) or stays undecided
+UNIT_TIMEOUT['eval'] = 1200  # the unchanged tree needs about 60 s; seeded change C10x needs between 10 and 20 minutes before the failed obligation is reported
 
 PROPS['C11'] = {
     # eval_node is part of the cone: it decides which operator function a temporal node is evaluated by and with which arguments
